@@ -76,7 +76,8 @@ pub fn world(variant: u64) -> Sys {
             &sorted(vec![c, coin(1000, "uom")])).unwrap();
     };
     farm(&mut s, &u4, "f1", 1, 5, coin(8000, "uweth"));
-    farm(&mut s, &u5, "f2", 1, 5, coin(12000 + v, "uusd"));
+    let second_owner = if variant % 2 == 1 { u4.clone() } else { u5.clone() };
+    farm(&mut s, &second_owner, "f2", 1, 5, coin(12000 + v, "uusd"));
     let fa = s.farm.clone();
     s.exec(&u3, &fa, &fm::ExecuteMsg::ManagePosition { action: fm::PositionAction::Create { identifier: Some("carol".into()), unlocking_duration: YEAR, receiver: None } }, &[coin(100_000, lpd.clone())]).unwrap();
     s.exec(&lp, &fa, &fm::ExecuteMsg::ManagePosition { action: fm::PositionAction::Create { identifier: Some("bob".into()), unlocking_duration: DAY, receiver: None } }, &[coin(300_000, lpd.clone())]).unwrap();
@@ -181,7 +182,8 @@ fn run_case(t: &mut Tracer, variant: u64, extra_time: u64, pick: &dyn Fn(&Sys) -
 pub fn run(rng: &mut StdRng, thorough: bool, t: &mut Tracer) {
     t.reset("fault", json!({}));
     let ncases = cases(&world(0)).len();
-    let variants: Vec<u64> = if thorough { (0..6).map(|_| rng.gen_range(0..1000)).collect() } else { vec![0, rng.gen_range(1..1000)] };
+    // even variants: distinct farm owners; odd variants: one owner for both expiring farms
+    let variants: Vec<u64> = if thorough { (0..6).map(|k| rng.gen_range(0..500) * 2 + k % 2).collect() } else { vec![0, rng.gen_range(0..500) * 2 + 1] };
     for v in variants {
         for i in 0..ncases {
             run_case(t, v, 0, &move |s: &Sys| cases(s).into_iter().nth(i).unwrap());
